@@ -19,7 +19,9 @@ CONFIG = {
     "id": "C02",
     "rule": ("the C01 stream (documents x paths of the fragment, both notations) plus documents whose keys contain "
              "every character the path syntax escapes (. / [ ] ( ) ' \" space ^ $ % \\\\ & and leading /), anchors and "
-             "aliases; every result of every required query is checked.  non-trivial = some result was checked; "
+             "aliases, 80 edge-shaped keys (blank-edged, numeric-looking, bracket-led, operators, quotes, back-slashes) "
+             "each at four positions with siblings, and seeded random keys over the punctuation alphabet; every result "
+             "of every required query is checked.  non-trivial = some result was checked; "
              "distinct = distinct (document, path list)."),
     "trusted_base": [
         "modelled, not verified: yamlpath/processor.py 811-2627 (coordinates built by every handler), "
@@ -273,7 +275,8 @@ def edge_cases():
         if not path_parses(k):
             continue
         q = yq(k)
-        yield ("{zz: 6, %s: 5, a1: 7}" % q, ["*", "/*", "**"])
+        yield ("{zz: 6, %s: 5}" % q, ["*"])
+        yield ("{zz: 6, %s: 5, a1: 7}" % q, ["/*", "**"])
         yield ("{zz: {x: 6}, %s: {x: 5, %s: 4}, a1: {x: 7}}" % (q, q), ["*.x", "**", "/*/*"])
         yield ("{o: {zz: 6, %s: 5, a1: 7}}" % q, ["o.*", "/o/*", "**"])
         yield ("[{zz: 6, %s: [5, {%s: 4}], a1: 7}]" % (q, q), ["[0].*", "**", "*.*[0]"])
